@@ -25,6 +25,7 @@ import numpy as np
 
 from . import common
 from .common import Ctx, frac
+from .geo_common import disagree as gdisagree, violate as gviolate
 from .geo_common import (PI, allclose, as_shape, close, fbits, fline, floats, gen_angle, gen_lat, gen_lon, gen_vec,
                          qline, rats, rows_of, ulps, unit_dir, worst)
 
@@ -134,11 +135,11 @@ def check_axis_rotations(ctx: Ctx):
             mats = np.asarray(R(arg), dtype=float)
             dmats = np.asarray(dR(arg), dtype=float)
         except Exception as e:
-            ctx.violate(f"raises:R{k}:{kind}", f"rotation.R{k}/dR{k} raised {type(e).__name__}: {e}", case)
+            gviolate(ctx, f"raises:R{k}:{kind}", f"rotation.R{k}/dR{k} raised {type(e).__name__}: {e}", case)
             continue
         want_shape = (3, 3) if kind == "scalar" else (m, 3, 3)
         if mats.shape != want_shape or dmats.shape != want_shape:
-            ctx.violate(f"shape:R{k}:{kind}", f"R{k}({kind} of {m}) has shape {mats.shape}, dR {dmats.shape}; expected {want_shape}", case)
+            gviolate(ctx, f"shape:R{k}:{kind}", f"R{k}({kind} of {m}) has shape {mats.shape}, dR {dmats.shape}; expected {want_shape}", case)
             continue
         mats = mats.reshape(-1, 3, 3)
         dmats = dmats.reshape(-1, 3, 3)
@@ -152,31 +153,31 @@ def check_axis_rotations(ctx: Ctx):
         for i, a in enumerate(angles):
             fR, fdR, qR, qdR = ans[4 * i: 4 * i + 4]
             if not allclose(mats[i].ravel(), floats(fR), ulp=2):
-                ctx.disagree(f"rotation.R{k} (Float model)", {**case, "i": i}, floats(fR), mats[i].ravel().tolist())
+                gdisagree(ctx, f"rotation.R{k} (Float model)", {**case, "i": i}, floats(fR), mats[i].ravel().tolist())
             if not allclose(dmats[i].ravel(), floats(fdR), ulp=2):
-                ctx.disagree(f"rotation.dR{k} (Float model)", {**case, "i": i}, floats(fdR), dmats[i].ravel().tolist())
+                gdisagree(ctx, f"rotation.dR{k} (Float model)", {**case, "i": i}, floats(fdR), dmats[i].ravel().tolist())
             if [frac(x) for x in mats[i].ravel()] != rats(qR):
-                ctx.disagree(f"rotation.R{k} (Rat model on NumPy's cos/sin)", {**case, "i": i}, qR, mats[i].ravel().tolist())
+                gdisagree(ctx, f"rotation.R{k} (Rat model on NumPy's cos/sin)", {**case, "i": i}, qR, mats[i].ravel().tolist())
             if [frac(x) for x in dmats[i].ravel()] != rats(qdR):
-                ctx.disagree(f"rotation.dR{k} (Rat model on NumPy's cos/sin)", {**case, "i": i}, qdR, dmats[i].ravel().tolist())
+                gdisagree(ctx, f"rotation.dR{k} (Rat model on NumPy's cos/sin)", {**case, "i": i}, qdR, dmats[i].ravel().tolist())
         # ---- oracle
         for i, a in enumerate(angles):
             M = mats[i]
             why = is_rotation(M)
             if why:
-                ctx.violate(f"proper-rotation:R{k}", f"R{k}({a!r}) is not a proper rotation: {why}", {**case, "i": i})
+                gviolate(ctx, f"proper-rotation:R{k}", f"R{k}({a!r}) is not a proper rotation: {why}", {**case, "i": i})
             Mn = np.asarray(R(-a), dtype=float)
             if not np.array_equal(Mn, M.T):
-                ctx.violate(f"R(-a)=R(a)^T:R{k}", f"R{k}(-a) != R{k}(a)^T at a={a!r}", {**case, "i": i})
+                gviolate(ctx, f"R(-a)=R(a)^T:R{k}", f"R{k}(-a) != R{k}(a)^T at a={a!r}", {**case, "i": i})
             Mb = np.asarray(R(b), dtype=float)
             Mab = np.asarray(R(a + b), dtype=float)
             prod = np.array([[float(x) for x in row] for row in mmul(fmat(M), fmat(Mb))])
             if np.max(np.abs(prod - Mab)) > 2e-14:
-                ctx.violate(f"R(a)R(b)=R(a+b):R{k}", f"R{k}(a)R{k}(b) differs from R{k}(a+b) by {np.max(np.abs(prod - Mab)):.2e} at a={a!r}, b={b!r}", {**case, "i": i})
+                gviolate(ctx, f"R(a)R(b)=R(a+b):R{k}", f"R{k}(a)R{k}(b) differs from R{k}(a+b) by {np.max(np.abs(prod - Mab)):.2e} at a={a!r}, b={b!r}", {**case, "i": i})
             h = 1e-6
             num = (np.asarray(R(a + h), dtype=float) - np.asarray(R(a - h), dtype=float)) / (2 * h)
             if np.max(np.abs(num - dmats[i])) > 1e-8:
-                ctx.violate(f"dR=d/da R:dR{k}", f"dR{k}({a!r}) differs from the central difference of R{k} by {np.max(np.abs(num - dmats[i])):.2e}", {**case, "i": i})
+                gviolate(ctx, f"dR=d/da R:dR{k}", f"dR{k}({a!r}) differs from the central difference of R{k} by {np.max(np.abs(num - dmats[i])):.2e}", {**case, "i": i})
 
 
 # --------------------------------------------------------------------------------------------------
@@ -202,11 +203,11 @@ def check_enu_matrices(ctx: Ctx):
             e2t = np.asarray(rotation.enu2trs(la, lo), dtype=float)
             t2e = np.asarray(rotation.trs2enu(la, lo), dtype=float)
         except Exception as e:
-            ctx.violate(f"raises:enu2trs:{kind}", f"rotation.enu2trs/trs2enu raised {type(e).__name__}: {e}", case)
+            gviolate(ctx, f"raises:enu2trs:{kind}", f"rotation.enu2trs/trs2enu raised {type(e).__name__}: {e}", case)
             continue
         want_shape = (3, 3) if kind == "scalar" else (m, 3, 3)
         if e2t.shape != want_shape or t2e.shape != want_shape:
-            ctx.violate(f"shape:enu2trs:{kind}", f"enu2trs has shape {e2t.shape}, trs2enu {t2e.shape}; expected {want_shape}", case)
+            gviolate(ctx, f"shape:enu2trs:{kind}", f"enu2trs has shape {e2t.shape}, trs2enu {t2e.shape}; expected {want_shape}", case)
             continue
         e2t = e2t.reshape(-1, 3, 3)
         t2e = t2e.reshape(-1, 3, 3)
@@ -219,21 +220,21 @@ def check_enu_matrices(ctx: Ctx):
         for i in range(m):
             fe, ft, qe, qt = ans[4 * i: 4 * i + 4]
             if not allclose(e2t[i].ravel(), floats(fe), ulp=2):
-                ctx.disagree("rotation.enu2trs (Float model)", {**case, "i": i}, floats(fe), e2t[i].ravel().tolist())
+                gdisagree(ctx, "rotation.enu2trs (Float model)", {**case, "i": i}, floats(fe), e2t[i].ravel().tolist())
             if not allclose(t2e[i].ravel(), floats(ft), ulp=2):
-                ctx.disagree("rotation.trs2enu (Float model)", {**case, "i": i}, floats(ft), t2e[i].ravel().tolist())
+                gdisagree(ctx, "rotation.trs2enu (Float model)", {**case, "i": i}, floats(ft), t2e[i].ravel().tolist())
             # the algebraic part, exactly: each entry is the correctly rounded product of NumPy's cos/sin values
             if [float(q) for q in rats(qe)] != [float(x) for x in e2t[i].ravel()]:
-                ctx.disagree("rotation.enu2trs (Rat model on NumPy's cos/sin)", {**case, "i": i}, qe, e2t[i].ravel().tolist())
+                gdisagree(ctx, "rotation.enu2trs (Rat model on NumPy's cos/sin)", {**case, "i": i}, qe, e2t[i].ravel().tolist())
             if [float(q) for q in rats(qt)] != [float(x) for x in t2e[i].ravel()]:
-                ctx.disagree("rotation.trs2enu (Rat model on NumPy's cos/sin)", {**case, "i": i}, qt, t2e[i].ravel().tolist())
+                gdisagree(ctx, "rotation.trs2enu (Rat model on NumPy's cos/sin)", {**case, "i": i}, qt, t2e[i].ravel().tolist())
             # oracle
             for name, M in (("enu2trs", e2t[i]), ("trs2enu", t2e[i])):
                 why = is_rotation(M)
                 if why:
-                    ctx.violate(f"proper-rotation:{name}", f"rotation.{name}(lat={lats[i]!r}, lon={lons[i]!r}) is not a proper rotation: {why}", {**case, "i": i})
+                    gviolate(ctx, f"proper-rotation:{name}", f"rotation.{name}(lat={lats[i]!r}, lon={lons[i]!r}) is not a proper rotation: {why}", {**case, "i": i})
             if not np.array_equal(e2t[i].T, t2e[i]):
-                ctx.violate("trs2enu=enu2trs^T", f"trs2enu != enu2trs^T at lat={lats[i]!r}, lon={lons[i]!r}", {**case, "i": i})
+                gviolate(ctx, "trs2enu=enu2trs^T", f"trs2enu != enu2trs^T at lat={lats[i]!r}, lon={lons[i]!r}", {**case, "i": i})
             triad_oracle(ctx, e2t[i], lats[i], lons[i], {**case, "i": i}, "rotation.enu2trs")
 
 
@@ -242,14 +243,14 @@ def triad_oracle(ctx, e2t, lat, lon, case, where):
     east, north, up = e2t[:, 0], e2t[:, 1], e2t[:, 2]
     n_hat = np.array([math.cos(lat) * math.cos(lon), math.cos(lat) * math.sin(lon), math.sin(lat)])
     if np.max(np.abs(up - n_hat)) > 4e-16:
-        ctx.violate("up=normal(lat,lon)", f"{where}: Up column {up.tolist()} is not (cos lat cos lon, cos lat sin lon, sin lat) at lat={lat!r}, lon={lon!r}", case)
+        gviolate(ctx, "up=normal(lat,lon)", f"{where}: Up column {up.tolist()} is not (cos lat cos lon, cos lat sin lon, sin lat) at lat={lat!r}, lon={lon!r}", case)
     if east[2] != 0 or abs(float(np.dot(east, up))) > 4e-16:
-        ctx.violate("east-perp-axis-and-up", f"{where}: East {east.tolist()} is not perpendicular to the z axis and Up", case)
+        gviolate(ctx, "east-perp-axis-and-up", f"{where}: East {east.tolist()} is not perpendicular to the z axis and Up", case)
     if np.max(np.abs(np.cross(up, east) - north)) > 4e-16:
-        ctx.violate("north=up x east", f"{where}: North {north.tolist()} != Up x East", case)
+        gviolate(ctx, "north=up x east", f"{where}: North {north.tolist()} != Up x East", case)
     # East points towards increasing longitude: (-sin lon, cos lon, 0)
     if np.max(np.abs(east - np.array([-math.sin(lon), math.cos(lon), 0.0]))) > 4e-16:
-        ctx.violate("east=d/dlon", f"{where}: East {east.tolist()} is not (-sin lon, cos lon, 0)", case)
+        gviolate(ctx, "east=d/dlon", f"{where}: East {east.tolist()} is not (-sin lon, cos lon, 0)", case)
 
 
 # --------------------------------------------------------------------------------------------------
@@ -274,7 +275,7 @@ def check_position_frames(ctx: Ctx):
         shape = rng.choice(["1d", "1xk"]) if m == 1 else "nxk"
         llh_rows = [gen_ref_llh(rng) for _ in range(m)]
         ref_sys = rng.choice(["trs", "llh"])
-        trs_rows = [np.asarray(T.llh2trs(np.array(r), E), dtype=float).tolist() for r in llh_rows]
+        trs_rows = [np.asarray(T.llh2trs(np.array(r), E), dtype=float).reshape(-1, 3)[0].tolist() for r in llh_rows]
         dvecs = [gen_vec(rng) for _ in range(m)]
         dvels = [gen_vec(rng, -9, 4) for _ in range(m)]
         six = rng.random() < 0.4
@@ -287,7 +288,7 @@ def check_position_frames(ctx: Ctx):
         try:
             one_frame(ctx, case, ell, E, shape, ref_sys, llh_rows, trs_rows, dvecs, dvels, six)
         except Exception as e:
-            ctx.violate(f"raises:frame:{type(e).__name__}", f"local-frame conversion raised {type(e).__name__}: {e}", case)
+            gviolate(ctx, f"raises:frame:{type(e).__name__}", f"local-frame conversion raised {type(e).__name__}: {e}", case)
 
 
 def one_frame(ctx, case, ell, E, shape, ref_sys, llh_rows, trs_rows, dvecs, dvels, six):
@@ -316,7 +317,7 @@ def one_frame(ctx, case, ell, E, shape, ref_sys, llh_rows, trs_rows, dvecs, dvel
     e2t = np.asarray(frame_owner.enu2trs, dtype=float)
     want = (3, 3) if shape == "1d" else (m, 3, 3)
     if t2e.shape != want or e2t.shape != want:
-        ctx.violate(f"shape:trs2enu:{shape}", f"ref_pos.trs2enu has shape {t2e.shape}, expected {want}", case)
+        gviolate(ctx, f"shape:trs2enu:{shape}", f"ref_pos.trs2enu has shape {t2e.shape}, expected {want}", case)
         return
     t2e = t2e.reshape(-1, 3, 3)
     e2t = e2t.reshape(-1, 3, 3)
@@ -324,7 +325,7 @@ def one_frame(ctx, case, ell, E, shape, ref_sys, llh_rows, trs_rows, dvecs, dvel
     back = rows_of(np.asarray(delta.enu.trs, dtype=float))
     k = 6 if six else 3
     if enu.shape != (m, k) or back.shape != (m, k):
-        ctx.violate(f"shape:delta.enu:{shape}", f"delta.enu has shape {np.asarray(delta.enu).shape} for input shape {np.asarray(dval).shape}", case)
+        gviolate(ctx, f"shape:delta.enu:{shape}", f"delta.enu has shape {np.asarray(delta.enu).shape} for input shape {np.asarray(dval).shape}", case)
         return
     # ---- correspondence: frame of the reference position through the trs2llh model, then the matrix product
     lines = []
@@ -338,7 +339,7 @@ def one_frame(ctx, case, ell, E, shape, ref_sys, llh_rows, trs_rows, dvecs, dvel
     for i in range(m):
         mod = floats(ans[i])
         if not allclose(t2e[i].ravel(), mod, ulp=4, abs_=1e-15):
-            ctx.disagree("Position.trs2enu (trs2llh + rotation.trs2enu, Float model)", {**case, "i": i}, mod, t2e[i].ravel().tolist())
+            gdisagree(ctx, "Position.trs2enu (trs2llh + rotation.trs2enu, Float model)", {**case, "i": i}, mod, t2e[i].ravel().tolist())
         # the delta conversion itself on the implementation's own frame angles: lat, lon the code used
         lat, lon = (np.asarray(frame_owner.pos.llh.val, dtype=float).reshape(-1, 3)[i][:2]).tolist()
         cs = (float(np.cos(lat)), float(np.sin(lat)), float(np.cos(lon)), float(np.sin(lon)))
@@ -358,16 +359,16 @@ def one_frame(ctx, case, ell, E, shape, ref_sys, llh_rows, trs_rows, dvecs, dvel
             mod_e = floats(ans2[2 * i])[sl]
             mod_b = floats(ans2[2 * i + 1])[sl]
             if worst(enu[i][sl], mod_e) > tol:
-                ctx.disagree("delta_trs2enu%s (Float model)" % ("_posvel" if six else ""), {**case, "i": i, "part": part}, mod_e, enu[i][sl].tolist())
+                gdisagree(ctx, "delta_trs2enu%s (Float model)" % ("_posvel" if six else ""), {**case, "i": i, "part": part}, mod_e, enu[i][sl].tolist())
             if worst(back[i][sl], mod_b) > tol:
-                ctx.disagree("delta_enu2trs%s (Float model)" % ("_posvel" if six else ""), {**case, "i": i, "part": part}, mod_b, back[i][sl].tolist())
+                gdisagree(ctx, "delta_enu2trs%s (Float model)" % ("_posvel" if six else ""), {**case, "i": i, "part": part}, mod_b, back[i][sl].tolist())
     # ---- oracle
     for i in range(m):
         why = is_rotation(t2e[i])
         if why:
-            ctx.violate("proper-rotation:Position.trs2enu", f"ref_pos.trs2enu is not a proper rotation: {why}", {**case, "i": i})
+            gviolate(ctx, "proper-rotation:Position.trs2enu", f"ref_pos.trs2enu is not a proper rotation: {why}", {**case, "i": i})
         if not np.array_equal(e2t[i], t2e[i].T):
-            ctx.violate("Position.enu2trs=trs2enu^T", "ref_pos.enu2trs != ref_pos.trs2enu^T", {**case, "i": i})
+            gviolate(ctx, "Position.enu2trs=trs2enu^T", "ref_pos.enu2trs != ref_pos.trs2enu^T", {**case, "i": i})
         full = list(dvecs[i]) + (list(dvels[i]) if six else [])
         for part in range(2 if six else 1):
             sl = slice(3 * part, 3 * part + 3)
@@ -375,16 +376,16 @@ def one_frame(ctx, case, ell, E, shape, ref_sys, llh_rows, trs_rows, dvecs, dvel
             nd = float(np.linalg.norm(d))
             ne = float(np.linalg.norm(enu[i][sl]))
             if abs(ne - nd) > REL * nd:
-                ctx.violate("norm-preserved:trs->enu", f"|enu| = {ne!r} but |trs| = {nd!r}", {**case, "i": i, "part": part})
+                gviolate(ctx, "norm-preserved:trs->enu", f"|enu| = {ne!r} but |trs| = {nd!r}", {**case, "i": i, "part": part})
             if float(np.max(np.abs(back[i][sl] - d))) > REL * nd:
-                ctx.violate("roundtrip:trs->enu->trs", f"trs -> enu -> trs is off by {float(np.max(np.abs(back[i][sl] - d))):.3e} m for |d| = {nd:.3e}", {**case, "i": i, "part": part})
+                gviolate(ctx, "roundtrip:trs->enu->trs", f"trs -> enu -> trs is off by {float(np.max(np.abs(back[i][sl] - d))):.3e} m for |d| = {nd:.3e}", {**case, "i": i, "part": part})
             # components are the projections on the triad
             east, north, up = e2t[i][:, 0], e2t[i][:, 1], e2t[i][:, 2]
             proj = np.array([np.dot(d, east), np.dot(d, north), np.dot(d, up)])
             if float(np.max(np.abs(proj - enu[i][sl]))) > REL * nd + 1e-300:
-                ctx.violate("enu=projections-on-triad", f"enu components {enu[i][sl].tolist()} are not the projections {proj.tolist()} on East/North/Up", {**case, "i": i, "part": part})
+                gviolate(ctx, "enu=projections-on-triad", f"enu components {enu[i][sl].tolist()} are not the projections {proj.tolist()} on East/North/Up", {**case, "i": i, "part": part})
         # the triad of the Position object is the geodetic one
-        lat, lon, h0 = (np.asarray(T.trs2llh(np.array(trs_rows[i]), E), dtype=float)).tolist()
+        lat, lon, h0 = llh_of(T, trs_rows[i], E)
         triad_oracle(ctx, e2t[i], lat, lon, {**case, "i": i}, "Position.enu2trs")
         # Up is the ellipsoid normal at the reference position: moving along Up changes only the height, by the distance moved
         up = e2t[i][:, 2]
@@ -392,26 +393,26 @@ def one_frame(ctx, case, ell, E, shape, ref_sys, llh_rows, trs_rows, dvecs, dvel
             if abs(abs(lat) - PI / 2) < 1e-7 or h0 + step < -2e5:
                 continue
             moved = np.array(trs_rows[i]) + step * up
-            lat2, lon2, h2 = np.asarray(T.trs2llh(moved, E), dtype=float).tolist()
+            lat2, lon2, h2 = llh_of(T, moved, E)
             R = E.a + abs(h0)
             dlon = abs((lon2 - lon + PI) % (2 * PI) - PI)
             if abs(h2 - (h0 + step)) > 1e-6 or abs(lat2 - lat) * R > 1e-5 or dlon * R * math.cos(lat) > 1e-5:
-                ctx.violate("up=ellipsoid-normal", f"moving {step} m along Up on {ell} changes (lat, lon, h) from {(lat, lon, h0)} to {(lat2, lon2, h2)}", {**case, "i": i})
+                gviolate(ctx, "up=ellipsoid-normal", f"moving {step} m along Up on {ell} changes (lat, lon, h) from {(lat, lon, h0)} to {(lat2, lon2, h2)}", {**case, "i": i})
         # … and parallel to the gradient of x²/a² + y²/a² + z²/b² at the foot point
-        foot = np.asarray(T.llh2trs(np.array([lat, lon, 0.0]), E), dtype=float)
+        foot = np.asarray(T.llh2trs(np.array([lat, lon, 0.0]), E), dtype=float).reshape(-1, 3)[0]
         grad = np.array([foot[0] / E.a**2, foot[1] / E.a**2, foot[2] / E.b**2])
         grad = grad / np.linalg.norm(grad)
         if float(np.max(np.abs(grad - up))) > 1e-12:
-            ctx.violate("up=gradient-of-ellipsoid", f"Up {up.tolist()} is not the unit gradient {grad.tolist()} of the {ell} quadric at the foot point", {**case, "i": i})
+            gviolate(ctx, "up=gradient-of-ellipsoid", f"Up {up.tolist()} is not the unit gradient {grad.tolist()} of the {ell} quadric at the foot point", {**case, "i": i})
         # enu_east/north/up properties
         try:
             ee = np.asarray(frame_owner.enu_east, dtype=float).reshape(-1, 3)[i]
             en = np.asarray(frame_owner.enu_north, dtype=float).reshape(-1, 3)[i]
             eu = np.asarray(frame_owner.enu_up, dtype=float).reshape(-1, 3)[i]
             if not (np.array_equal(ee, e2t[i][:, 0]) and np.array_equal(en, e2t[i][:, 1]) and np.array_equal(eu, e2t[i][:, 2])):
-                ctx.violate("enu_east/north/up=columns", "enu_east/enu_north/enu_up are not the columns of enu2trs", {**case, "i": i})
+                gviolate(ctx, "enu_east/north/up=columns", "enu_east/enu_north/enu_up are not the columns of enu2trs", {**case, "i": i})
         except Exception as e:
-            ctx.violate(f"raises:enu_east:{type(e).__name__}", f"enu_east/north/up raised {e}", {**case, "i": i})
+            gviolate(ctx, f"raises:enu_east:{type(e).__name__}", f"enu_east/north/up raised {e}", {**case, "i": i})
     # angle preservation between the deltas of one array
     if m >= 2 and not six:
         for i in range(m - 1):
@@ -423,9 +424,14 @@ def one_frame(ctx, case, ell, E, shape, ref_sys, llh_rows, trs_rows, dvecs, dvel
             pe = np.asarray(pair.enu, dtype=float)
             rhs = float(np.dot(pe[0], pe[1]))
             if abs(lhs - rhs) > REL * (np.linalg.norm(a) * np.linalg.norm(b)) + 1e-300:
-                ctx.violate("angle-preserved:trs->enu", f"dot product {lhs!r} becomes {rhs!r} in ENU", {**case, "i": i})
+                gviolate(ctx, "angle-preserved:trs->enu", f"dot product {lhs!r} becomes {rhs!r} in ENU", {**case, "i": i})
     # identical numbers for (k,), (1,k) and row i of (n,k)
     shape_consistency(ctx, case, six, ref_sys if not six else "trs", ref_rows, dvecs, dvels, E, enu)
+
+
+def llh_of(T, xyz, E):
+    """trs2llh of one point (the lru_cache of _trs2llh may hand back a (1, 3) result for a (3,) input: property C08)"""
+    return np.asarray(T.trs2llh(np.array(xyz, dtype=float), E), dtype=float).reshape(-1, 3)[0].tolist()
 
 
 def shape_consistency(ctx, case, six, ref_sys, ref_rows, dvecs, dvels, E, enu):
@@ -439,8 +445,9 @@ def shape_consistency(ctx, case, six, ref_sys, ref_rows, dvecs, dvels, E, enu):
             ref = Position(as_shape([ref_rows[i]], shape), ref_sys, ellipsoid=E)
             d = PositionDelta(as_shape([dvecs[i]], shape), "trs", ref_pos=ref)
         got = np.asarray(d.enu, dtype=float).ravel()
-        if got.shape != enu[i].shape or not np.array_equal(got, enu[i]):
-            ctx.violate(f"shape-consistency:delta.enu:{shape}", f"delta.enu of one row given as {shape} is {got.tolist()} but {enu[i].tolist()} as row of the array", {**case, "as": shape})
+        scale = float(np.linalg.norm(dvecs[i])) + (float(np.linalg.norm(dvels[i])) if six else 0.0)
+        if got.shape != enu[i].shape or float(np.max(np.abs(got - enu[i]))) > 8 * 2.3e-16 * scale:
+            gviolate(ctx, f"shape-consistency:delta.enu:{shape}", f"delta.enu of one row given as {shape} is {got.tolist()} but {enu[i].tolist()} as row of the array", {**case, "as": shape})
 
 
 # --------------------------------------------------------------------------------------------------
@@ -485,7 +492,7 @@ def check_acr(ctx: Ctx):
         try:
             one_acr(ctx, case, shape, states, deltas)
         except Exception as e:
-            ctx.violate(f"raises:acr:{type(e).__name__}", f"along/cross/radial conversion raised {type(e).__name__}: {e}", case)
+            gviolate(ctx, f"raises:acr:{type(e).__name__}", f"along/cross/radial conversion raised {type(e).__name__}: {e}", case)
 
 
 def one_acr(ctx, case, shape, states, deltas):
@@ -498,14 +505,14 @@ def one_acr(ctx, case, shape, states, deltas):
     a2t = np.asarray(ref.acr2trs, dtype=float)
     want = (3, 3) if shape == "1d" else (m, 3, 3)
     if t2a.shape != want or a2t.shape != want:
-        ctx.violate(f"shape:trs2acr:{shape}", f"trs2acr has shape {t2a.shape}, expected {want}", case)
+        gviolate(ctx, f"shape:trs2acr:{shape}", f"trs2acr has shape {t2a.shape}, expected {want}", case)
         return
     t2a = t2a.reshape(-1, 3, 3)
     a2t = a2t.reshape(-1, 3, 3)
     acr = rows_of(np.asarray(delta.acr, dtype=float))
     back = rows_of(np.asarray(delta.acr.trs, dtype=float))
     if acr.shape != (m, 6) or back.shape != (m, 6):
-        ctx.violate(f"shape:delta.acr:{shape}", f"delta.acr has shape {np.asarray(delta.acr).shape}", case)
+        gviolate(ctx, f"shape:delta.acr:{shape}", f"delta.acr has shape {np.asarray(delta.acr).shape}", case)
         return
     lines = []
     for i, (r, v) in enumerate(states):
@@ -520,23 +527,23 @@ def one_acr(ctx, case, shape, states, deltas):
         mtol = 8 * 2.3e-16 / max(sin_rv, 1e-12)
         mt, ma, md, mb = (floats(a) for a in ans[4 * i: 4 * i + 4])
         if worst(t2a[i].ravel(), mt) > mtol:
-            ctx.disagree("PosVelArray.trs2acr (Float model)", {**case, "i": i}, mt, t2a[i].ravel().tolist())
+            gdisagree(ctx, "PosVelArray.trs2acr (Float model)", {**case, "i": i}, mt, t2a[i].ravel().tolist())
         if worst(a2t[i].ravel(), ma) > mtol:
-            ctx.disagree("PosVelArray.acr2trs (Float model)", {**case, "i": i}, ma, a2t[i].ravel().tolist())
+            gdisagree(ctx, "PosVelArray.acr2trs (Float model)", {**case, "i": i}, ma, a2t[i].ravel().tolist())
         for part in range(2):
             sl = slice(3 * part, 3 * part + 3)
             scale = float(np.linalg.norm(deltas[i][sl]))
             tol = (mtol + 1e-15) * 4 * scale + 1e-300
             if worst(acr[i][sl], md[sl]) > tol:
-                ctx.disagree("delta_trs2acr_posvel (Float model)", {**case, "i": i, "part": part}, md[sl], acr[i][sl].tolist())
+                gdisagree(ctx, "delta_trs2acr_posvel (Float model)", {**case, "i": i, "part": part}, md[sl], acr[i][sl].tolist())
             if worst(back[i][sl], mb[sl]) > tol:
-                ctx.disagree("delta_acr2trs_posvel (Float model)", {**case, "i": i, "part": part}, mb[sl], back[i][sl].tolist())
+                gdisagree(ctx, "delta_acr2trs_posvel (Float model)", {**case, "i": i, "part": part}, mb[sl], back[i][sl].tolist())
         # ---- oracle
         why = is_rotation(t2a[i], tol=Fraction(1, 10**12))
         if why:
-            ctx.violate("proper-rotation:trs2acr", f"trs2acr is not a proper rotation: {why}", {**case, "i": i})
+            gviolate(ctx, "proper-rotation:trs2acr", f"trs2acr is not a proper rotation: {why}", {**case, "i": i})
         if not np.array_equal(a2t[i], t2a[i].T):
-            ctx.violate("acr2trs=trs2acr^T", "acr2trs != trs2acr^T", {**case, "i": i})
+            gviolate(ctx, "acr2trs=trs2acr^T", "acr2trs != trs2acr^T", {**case, "i": i})
         rhat = r / np.linalg.norm(r)
         chat = np.cross(r, v)
         chat = chat / np.linalg.norm(chat)
@@ -544,28 +551,28 @@ def one_acr(ctx, case, shape, states, deltas):
         ttol = 1e-13 / max(sin_rv, 1e-12) + 1e-13
         for name, row, want_v in (("along", 0, ahat), ("cross", 1, chat), ("radial", 2, rhat)):
             if float(np.max(np.abs(t2a[i][row] - want_v))) > ttol:
-                ctx.violate(f"acr-triad:{name}", f"row {row} of trs2acr {t2a[i][row].tolist()} is not the {name} unit vector {want_v.tolist()}", {**case, "i": i})
+                gviolate(ctx, f"acr-triad:{name}", f"row {row} of trs2acr {t2a[i][row].tolist()} is not the {name} unit vector {want_v.tolist()}", {**case, "i": i})
         for part in range(2):
             sl = slice(3 * part, 3 * part + 3)
             d = np.array(deltas[i][sl])
             nd = float(np.linalg.norm(d))
             if abs(float(np.linalg.norm(acr[i][sl])) - nd) > REL * nd:
-                ctx.violate("norm-preserved:trs->acr", f"|acr| = {float(np.linalg.norm(acr[i][sl]))!r} but |trs| = {nd!r}", {**case, "i": i, "part": part})
+                gviolate(ctx, "norm-preserved:trs->acr", f"|acr| = {float(np.linalg.norm(acr[i][sl]))!r} but |trs| = {nd!r}", {**case, "i": i, "part": part})
             if float(np.max(np.abs(back[i][sl] - d))) > REL * nd:
-                ctx.violate("roundtrip:trs->acr->trs", f"trs -> acr -> trs is off by {float(np.max(np.abs(back[i][sl] - d))):.3e}", {**case, "i": i, "part": part})
+                gviolate(ctx, "roundtrip:trs->acr->trs", f"trs -> acr -> trs is off by {float(np.max(np.abs(back[i][sl] - d))):.3e}", {**case, "i": i, "part": part})
             proj = np.array([np.dot(d, ahat), np.dot(d, chat), np.dot(d, rhat)])
             if float(np.max(np.abs(proj - acr[i][sl]))) > (REL + ttol) * nd + 1e-300:
-                ctx.violate("acr=projections-on-triad", f"acr components {acr[i][sl].tolist()} are not the projections {proj.tolist()} on along/cross/radial", {**case, "i": i, "part": part})
+                gviolate(ctx, "acr=projections-on-triad", f"acr components {acr[i][sl].tolist()} are not the projections {proj.tolist()} on along/cross/radial", {**case, "i": i, "part": part})
     # shapes: one state as (6,), (1,6) and as row 0 of the array give the same numbers
     for sh in ("1d", "1xk"):
         ref1 = PosVel(as_shape([list(states[0][0]) + list(states[0][1])], sh), "trs")
         d1 = PosVelDelta(as_shape([deltas[0]], sh), "trs", ref_pos=ref1)
         got = np.asarray(d1.acr, dtype=float).ravel()
         if got.shape != acr[0].shape or float(np.max(np.abs(got - acr[0]))) > 1e-9 * float(np.linalg.norm(deltas[0])):
-            ctx.violate(f"shape-consistency:delta.acr:{sh}", f"delta.acr of one state given as {sh} is {got.tolist()} but {acr[0].tolist()} as row of an array", {**case, "as": sh})
+            gviolate(ctx, f"shape-consistency:delta.acr:{sh}", f"delta.acr of one state given as {sh} is {got.tolist()} but {acr[0].tolist()} as row of an array", {**case, "as": sh})
         m1 = np.asarray(ref1.trs2acr, dtype=float).reshape(3, 3)
         if float(np.max(np.abs(m1 - t2a[0]))) > 1e-12:
-            ctx.violate(f"shape-consistency:trs2acr:{sh}", f"trs2acr of one state given as {sh} is {m1.tolist()} but {t2a[0].tolist()} as row of an array", {**case, "as": sh})
+            gviolate(ctx, f"shape-consistency:trs2acr:{sh}", f"trs2acr of one state given as {sh} is {m1.tolist()} but {t2a[0].tolist()} as row of an array", {**case, "as": sh})
 
 
 # --------------------------------------------------------------------------------------------------
@@ -583,7 +590,7 @@ def check_azel(ctx: Ctx):
         m = rng.choice([1, 1, 2, 3])
         shape = rng.choice(["1d", "1xk"]) if m == 1 else "nxk"
         llh_rows = [gen_ref_llh(rng) for _ in range(m)]
-        trs_rows = [np.asarray(T.llh2trs(np.array(r), E), dtype=float).tolist() for r in llh_rows]
+        trs_rows = [np.asarray(T.llh2trs(np.array(r), E), dtype=float).reshape(-1, 3)[0].tolist() for r in llh_rows]
         targets = []
         for p in trs_rows:
             k = rng.random()
@@ -605,10 +612,10 @@ def check_azel(ctx: Ctx):
             e2t = np.asarray(ref.enu2trs, dtype=float).reshape(-1, 3, 3)
             llh = np.asarray(ref.llh.val, dtype=float).reshape(-1, 3)
         except Exception as e:
-            ctx.violate(f"raises:azel:{type(e).__name__}", f"azimuth/elevation raised {type(e).__name__}: {e}", case)
+            gviolate(ctx, f"raises:azel:{type(e).__name__}", f"azimuth/elevation raised {type(e).__name__}: {e}", case)
             continue
         if az.shape != (m,) or el.shape != (m,) or zd.shape != (m,):
-            ctx.violate(f"shape:azel:{shape}", f"azimuth has shape {az.shape} for {m} positions", case)
+            gviolate(ctx, f"shape:azel:{shape}", f"azimuth has shape {az.shape} for {m} positions", case)
             continue
         ans = drv.ask([f"c06 f azel {fline(llh[i][0], llh[i][1])} {fline(*trs_rows[i])} {fline(*targets[i])}" for i in range(m)])
         for i in range(m):
@@ -622,23 +629,23 @@ def check_azel(ctx: Ctx):
             eltol = dirtol / max(horiz, math.sqrt(dirtol))  # asin is ill-conditioned at +-1
             daz = abs((az[i] - maz + PI) % (2 * PI) - PI)
             if daz > aztol or abs(el[i] - mel) > eltol or abs(zd[i] - mzd) > eltol:
-                ctx.disagree("azimuth/elevation/zenith_distance (Float model)", {**case, "i": i}, [maz, mel, mzd], [float(az[i]), float(el[i]), float(zd[i])])
+                gdisagree(ctx, "azimuth/elevation/zenith_distance (Float model)", {**case, "i": i}, [maz, mel, mzd], [float(az[i]), float(el[i]), float(zd[i])])
             # oracle: the angles of the target vector expressed in the East/North/Up triad
             u = d / nd
             e_c, n_c, u_c = (float(np.dot(u, e2t[i][:, j])) for j in range(3))
             want_az = math.atan2(e_c, n_c)
             want_el = math.asin(max(-1.0, min(1.0, u_c)))
             if abs((az[i] - want_az + PI) % (2 * PI) - PI) > aztol + 1e-12:
-                ctx.violate("azimuth=atan2(east,north)", f"azimuth {float(az[i])!r} but the target has East/North components ({e_c!r}, {n_c!r}) -> {want_az!r}", {**case, "i": i})
+                gviolate(ctx, "azimuth=atan2(east,north)", f"azimuth {float(az[i])!r} but the target has East/North components ({e_c!r}, {n_c!r}) -> {want_az!r}", {**case, "i": i})
             if abs(el[i] - want_el) > eltol + 1e-12:
-                ctx.violate("elevation=asin(up)", f"elevation {float(el[i])!r} but the Up component is {u_c!r} -> {want_el!r}", {**case, "i": i})
+                gviolate(ctx, "elevation=asin(up)", f"elevation {float(el[i])!r} but the Up component is {u_c!r} -> {want_el!r}", {**case, "i": i})
             if abs(zd[i] - (PI / 2 - el[i])) > 1e-15:
-                ctx.violate("zenith=pi/2-elevation", f"zenith distance {float(zd[i])!r} != pi/2 - elevation {float(el[i])!r}", {**case, "i": i})
+                gviolate(ctx, "zenith=pi/2-elevation", f"zenith distance {float(zd[i])!r} != pi/2 - elevation {float(el[i])!r}", {**case, "i": i})
             if not (-PI <= az[i] <= PI and -PI / 2 <= el[i] <= PI / 2 and 0 <= zd[i] <= PI):
-                ctx.violate("azel-ranges", f"angles out of range: az={float(az[i])!r} el={float(el[i])!r} zd={float(zd[i])!r}", {**case, "i": i})
+                gviolate(ctx, "azel-ranges", f"angles out of range: az={float(az[i])!r} el={float(el[i])!r} zd={float(zd[i])!r}", {**case, "i": i})
             rec = np.array([math.cos(el[i]) * math.sin(az[i]), math.cos(el[i]) * math.cos(az[i]), math.sin(el[i])])
             if float(np.max(np.abs(rec - np.array([e_c, n_c, u_c])))) > 10 * dirtol + 1e-12:
-                ctx.violate("azel-reconstruct-direction", f"(cos el sin az, cos el cos az, sin el) = {rec.tolist()} is not the target direction {[e_c, n_c, u_c]} in ENU", {**case, "i": i})
+                gviolate(ctx, "azel-reconstruct-direction", f"(cos el sin az, cos el cos az, sin el) = {rec.tolist()} is not the target direction {[e_c, n_c, u_c]} in ENU", {**case, "i": i})
 
 
 def replay(payload):
